@@ -77,6 +77,9 @@ func runC13(c *core.Ctx) {
 		return
 	}
 	n := r.Range(0, 5000)
+	if c.Mode == "par" {
+		n = r.Range(0, 600) // several cases at once under the race detector: smaller inputs
+	}
 	if !pairsCheck(c, n) || !bigElemCheck(c, n%300) {
 		return
 	}
@@ -281,6 +284,35 @@ func partCheck(c *core.Ctx, n, size int) bool {
 	}
 	if !eqSlice(in, snap) {
 		return fail("input-modified", "the input slice was modified")
+	}
+	// the same slice changed in place and passed again: the helpers must look at it
+	// afresh (a result remembered by the slice's identity would be stale)
+	if n >= 2 {
+		p1 := slices.Pairs(in)
+		w1 := slices.Windowed(in, size)
+		c1 := slices.Chunk(in, size)
+		_, _, _ = p1, w1, c1
+		in[0], in[n-1] = -4242, -4343
+		p2 := slices.Pairs(in)
+		var fp [][2]int
+		slices.PairsFunc(in, func(a, b int) { fp = append(fp, [2]int{a, b}) })
+		if len(p2) != n-1 || p2[0][0] != -4242 || p2[n-2][1] != -4343 || !eqSlice(p2, fp) {
+			in[0], in[n-1] = snap[0], snap[n-1]
+			return fail("Pairs:stale-after-in-place-change", "Pairs called again after the slice was changed in place does not show the change (or disagrees with PairsFunc)")
+		}
+		c2 := slices.Chunk(in, size)
+		if len(c2) == 0 || c2[0][0] != -4242 || c2[len(c2)-1][len(c2[len(c2)-1])-1] != -4343 {
+			in[0], in[n-1] = snap[0], snap[n-1]
+			return fail("Chunk:stale-after-in-place-change", "Chunk called again after the slice was changed in place does not show the change")
+		}
+		if size <= n {
+			w2 := slices.Windowed(in, size)
+			if len(w2) == 0 || w2[0][0] != -4242 || w2[len(w2)-1][size-1] != -4343 {
+				in[0], in[n-1] = snap[0], snap[n-1]
+				return fail("Windowed:stale-after-in-place-change", "Windowed called again after the slice was changed in place does not show the change")
+			}
+		}
+		in[0], in[n-1] = snap[0], snap[n-1]
 	}
 	// results kept across later calls on other data must not change
 	if n > 0 && n <= 300 {
